@@ -33,7 +33,7 @@ def models(prog):
     M['xmalloc'] = xmalloc
     def arrayaddptr(it, args, e):
         a, v = args
-        it.user.setdefault('arrays', {}).setdefault((id(a.obj), a.path), []).append(v)
+        it.user.setdefault('arrays', {}).setdefault((a.obj.id, a.path), []).append(v)
         return None
     M['arrayaddptr'] = arrayaddptr
     M['mkintconst'] = lambda it, a, e: ('const', a[0])
@@ -70,7 +70,7 @@ def simulate(it, f, v, J, prog, names):
     b = it.load(f.obj, ('start',))
     while b is not None:
         blocks.append(b); b = b.obj.f.get(('next',))
-    idx = {id(b.obj): i for i, b in enumerate(blocks)}
+    idx = {b.obj.id: i for i, b in enumerate(blocks)}
     arrays = it.user.get('arrays', {})
     def run(probe, cmp_ok):
         i = 0
@@ -81,7 +81,7 @@ def simulate(it, f, v, J, prog, names):
             steps += 1
             if steps > 500: return ('loop', nceq)
             blk = blocks[i]
-            for inst in arrays.get((id(blk.obj), ('insts',)), []):
+            for inst in arrays.get((blk.obj.id, ('insts',)), []):
                 o = inst.obj
                 op = names.get(o.f[('kind',)])
                 a0, a1 = o.f[('arg', 0)], o.f[('arg', 1)]
@@ -89,16 +89,16 @@ def simulate(it, f, v, J, prog, names):
                     return ('bad-inst %s' % op, nceq)
                 if op in ('ICEQW', 'ICEQL'):
                     nceq += 1
-                    env[id(o)] = int(probe == a1[1])
+                    env[o.id] = int(probe == a1[1])
                 elif op in ('ICULTW', 'ICULTL'):
-                    env[id(o)] = int(probe < a1[1])
+                    env[o.id] = int(probe < a1[1])
                 else:
                     return ('bad-op %s' % op, nceq)
                 cmp_ok.add(op)
             jk = blk.obj.f.get(('jump', 'kind'))
             if jk == J['JUMP_JNZ']:
                 arg = blk.obj.f[('jump', 'arg')]
-                val = env.get(id(arg.obj))
+                val = env.get(arg.obj.id)
                 if val is None: return ('jnz-on-unknown', nceq)
                 t = blk.obj.f[('jump', 'blk', 0 if val else 1)]
             elif jk == J['JUMP_JMP']:
@@ -108,9 +108,9 @@ def simulate(it, f, v, J, prog, names):
                 i += 1; continue
             else:
                 return ('terminated', nceq)
-            if id(t.obj) not in idx:
+            if t.obj.id not in idx:
                 return (t, nceq)       # left the ladder: a case body or the default label
-            i = idx[id(t.obj)]
+            i = idx[t.obj.id]
     return run
 
 
